@@ -26,7 +26,7 @@ func ManagersThroughTheChain() {
 	a.Pass, b.Pass = "pass", "pass"
 	d.in.Wallet.Unlocked = true
 	cctx := callCtx(net.IPv4(10, 0, 0, 9), "client1", nil)
-	op := vsym.Choose("operation", 8)
+	op := vsym.Choose("operation", 10)
 	target := []string{"W/a", "W/b"}[vsym.Choose("target", 2)]
 	ok := false
 	switch op {
@@ -64,6 +64,17 @@ func ManagersThroughTheChain() {
 		res, err := vsym.Invoke("/v1.WalletManager/Unlock", cctx, &pb.UnlockWalletRequest{Wallet: name, Passphrase: []byte("pass")})
 		ok = err == nil && res.(*pb.UnlockWalletResponse).GetState() == pb.ResponseState_SUCCEEDED
 		vsym.Assert("A9-unknown-wallet-refused", !ok)
+	case 8:
+		// an account that does not exist (known wallet, unknown wallet, malformed path)
+		name := []string{"W/nope", "Nope/x", "W", ""}[vsym.Choose("unknown-account", 4)]
+		res, err := vsym.Invoke("/v1.AccountManager/Lock", cctx, &pb.LockAccountRequest{Account: name})
+		ok = err == nil && res.(*pb.LockAccountResponse).GetState() == pb.ResponseState_SUCCEEDED
+		vsym.Assert("A10-unknown-account-refused", !ok && b.Unlocked)
+	case 9:
+		name := []string{"W/nope", "Nope/x", "W", ""}[vsym.Choose("unknown-account", 4)]
+		res, err := vsym.Invoke("/v1.AccountManager/Unlock", cctx, &pb.UnlockAccountRequest{Account: name, Passphrase: []byte("pass")})
+		ok = err == nil && res.(*pb.UnlockAccountResponse).GetState() == pb.ResponseState_SUCCEEDED
+		vsym.Assert("A10-unknown-account-refused", !ok && !a.Unlocked)
 	default:
 		res, err := vsym.Invoke("/v1.AccountManager/Unlock", callCtx(net.IPv4(10, 0, 0, 9), "stranger", nil), &pb.UnlockAccountRequest{Account: "W/a", Passphrase: []byte("pass")})
 		ok = err == nil && res.(*pb.UnlockAccountResponse).GetState() == pb.ResponseState_SUCCEEDED
